@@ -271,6 +271,24 @@ CHECKS.update({
     ),
 })
 
+CHECKS.update({
+    "C18": (
+        "exploration",
+        "property testing over generated documents x substitute-class configurations; "
+        "oracle = recursive type walk, recorded constructor arguments, and equality "
+        "with the generator's expected tree after mapping substitutes back",
+        "Generated documents are loaded under six parser variants with every "
+        "combination of real_cls (float / Decimal / a recording float subclass), "
+        "quantity_cls and container subclasses; each real must be an instance of the "
+        "substitute built from exactly the written numeral, each integer an int, each "
+        "value-with-units a quantity_cls, each container exactly the substitute class, "
+        "at every depth, and nothing else may change. Sampled.",
+        "Trusted: the generator's expected tree (C03 oracle); RecordingReal / "
+        "RecordingQuantity defined in props/c18.py.",
+        "DESIGN.md 4/C18",
+    ),
+})
+
 PENDING = {}   # id -> reason while a check is not built yet
 
 
